@@ -277,6 +277,14 @@ func c17Eval(t *fw.T, c *fw.Case) {
 			val = "/" + val
 		}
 		doc, off := c17Doc(host, "\""+text+"\"")
+		// the same document with CRLF or CR line ends: the positions move with the line ends in front of them
+		switch c.Index % 3 {
+		case 1:
+			off += strings.Count(doc[:off], "\n")
+			doc = strings.ReplaceAll(doc, "\n", "\r\n")
+		case 2:
+			doc = strings.ReplaceAll(doc, "\n", "\r")
+		}
 		c.Docs[0] = run.Single([]byte(doc))
 		o := t.Exec(c.Docs[0])
 		switch problem {
